@@ -489,7 +489,7 @@ pub fn run(ctx: &mut Ctx) {
     let n = ctx.nshards as u32;
     set_shrink_iters(150);
     ctx.more_samples(2);
-    drive(ctx, "histories", ctx.tier.pick(2_000, 80_000) / n, 24, 400, |ctx, b| one(ctx, b));
+    drive(ctx, "histories", ctx.tier.pick(2_000, 50_000) / n, 24, 400, |ctx, b| one(ctx, b));
 }
 
 pub fn replay(_section: &str, case: &Value, ctx: &mut Ctx) {
